@@ -34,9 +34,29 @@ type Budget struct {
 	MaxSteps int // instructions per Top (0 = unlimited)
 	MaxDepth int // nested script calls
 	MaxLen   int // strings concatenated, slices made/spread
+	MaxOut   int // bytes written to stdout
 }
 
-var DefaultBudget = Budget{MaxSteps: 2_000_000, MaxDepth: 2500, MaxLen: 1 << 20}
+var DefaultBudget = Budget{MaxSteps: 2_000_000, MaxDepth: 2500, MaxLen: 1 << 20, MaxOut: 8 << 20}
+
+// SmallBudget is for workloads that include mutants and fuzz inputs, where
+// runaway loops are common: it keeps quadratic string growth and endless
+// printing cheap.
+var SmallBudget = Budget{MaxSteps: 200_000, MaxDepth: 1500, MaxLen: 1 << 15, MaxOut: 1 << 20}
+
+// limitWriter is the VM's stdout: it panics with the budget marker (which the
+// VM turns into an ordinary run error) once too much has been printed.
+type limitWriter struct {
+	buf *bytes.Buffer
+	max int
+}
+
+func (w *limitWriter) Write(p []byte) (int, error) {
+	if w.max > 0 && w.buf.Len()+len(p) > w.max {
+		panic(BudgetMarker + ": output size")
+	}
+	return w.buf.Write(p)
+}
 
 // Obs is the observer installed on harness VMs. It enforces the budget,
 // optionally counts executed opcodes, and forwards to an inner observer (the
@@ -174,7 +194,11 @@ type Machine struct {
 
 func NewMachine(o VMOpts) *Machine {
 	m := &Machine{Out: &bytes.Buffer{}, Obs: o.Obs}
-	m.VM = goatlang.New(goatlang.WithStdout(m.Out))
+	max := DefaultBudget.MaxOut
+	if o.Obs != nil {
+		max = o.Obs.Budget.MaxOut
+	}
+	m.VM = goatlang.New(goatlang.WithStdout(&limitWriter{buf: m.Out, max: max}))
 	if !o.NoStubs {
 		installStubs(m.VM)
 	}
